@@ -1714,24 +1714,42 @@ def c_sink_fifo(tier, kinds):
         os.mkfifo(fifo)
         got = []
 
+        done = threading.Event()
+
         def reader():
+            # opened without blocking, so that a program that never opens the FIFO (one that writes somewhere else and
+            # renames, say) cannot hold this thread; end of data = the writer has closed and the program has ended
             time.sleep(1.0 + 0.5 * attempt)
-            with open(fifo, "rb") as f:
+            fd = os.open(fifo, os.O_RDONLY | os.O_NONBLOCK)
+            try:
                 while True:
-                    b = f.read(1 << 16)
-                    if not b:
+                    try:
+                        b = os.read(fd, 1 << 16)
+                    except BlockingIOError:
+                        time.sleep(0.002)
+                        continue
+                    if b:
+                        got.append(b)
+                        if len(got) < 200:
+                            time.sleep(0.002)  # a consumer slower than the writers
+                    elif done.is_set():
                         break
-                    got.append(b)
-                    if len(got) < 200:
-                        time.sleep(0.002)  # a consumer slower than the writers
+                    else:
+                        time.sleep(0.005)
+            finally:
+                os.close(fd)
 
         th = threading.Thread(target=reader, daemon=True)
         th.start()
         rc, so, err, to = cli(base + ["-i", inp, "-o", fifo] + rest + ["-t", "8"], timeout=300)
+        done.set()
         th.join(60)
         rep.ev(1, 1)
         data = b"".join(got)
-        if rc != 0 or to or canon(kind, data) != canon(kind, read(ref)):
+        # what the properties fix is the content of the result; that a FIFO is accepted as output at all is not among
+        # them: a run that fails loudly, or that delivers nothing through the FIFO, is no verdict
+        rep.outcome("%s: %s" % (kind, "content through the FIFO" if data else "nothing through the FIFO (exit %s)" % rc))
+        if rc == 0 and not to and data and canon(kind, data) != canon(kind, read(ref)):
             rep.violation("result-depends-on-kind-of-output-file", 10, "kmertools %s -t 8 writing to a FIFO with a slow reader: exit %s, %d bytes / %d lines; the one-thread run into a regular file: %d bytes / %d lines, canonical contents differ %r" % (
                 " ".join(a), rc, len(data), data.count(b"\n"), len(read(ref)), read(ref).count(b"\n"), err[-200:]), "c_sink_fifo", {"kind": kind})
         shutil.rmtree(wd, ignore_errors=True)
@@ -1954,7 +1972,10 @@ def c_source_fifo(tier, kinds):
                 pass
         th.join(5)
         rep.ev(1, 1)
-        if rc != 0 or to or canon(kind, read(out)) != canon(kind, read(ref)):
+        # a run that refuses such an input loudly (or never ends and is killed) is no verdict; one that ends with
+        # status 0 has read every record
+        rep.outcome("%s: %s" % (kind, "completed" if rc == 0 and not to else "did not complete (exit %s)" % rc))
+        if rc == 0 and not to and canon(kind, read(out)) != canon(kind, read(ref)):
             got = read(out)
             rep.violation("result-depends-on-kind-of-input-file", 10, "kmertools %s -t %d reading 3000 records from a FIFO: exit %s%s, %s lines; from a regular file with the same bytes: %d lines %r" % (
                 " ".join(a), t, rc, " (no exit within 60 s)" if to else "", None if got is None else got.count(b"\n"), read(ref).count(b"\n"), err[-160:]), "c_source_fifo", {"kind": kind, "t": t})
